@@ -115,6 +115,16 @@ func c20Scenarios(tier string) []*Scenario {
 			add("c2s-finish", "", RPC{Kind: "bd", Client: sends("S", n), Handler: cat([]string{"go"}, rep("r", k), []string{"ret:ok"}), Handler2: []string{"s0", "s1", "s2"}})
 		}
 	}
+	// an earlier call's handler left a goroutine behind that still receives: a later call on the same
+	// channel is held back by *its own* handler only
+	for _, k := range []int{1, 3} {
+		sc := &Scenario{Prop: "C20", Transport: "inproc", Bound: -1, Opts: "seq0", RPCs: []RPC{
+			{Kind: "bd", Client: []string{"S0", "C", "R*"}, Handler: []string{"go", "r", "ret:ok"}, Handler2: cat([]string{"wd"}, rep("r", k))},
+			{Kind: "bd", Client: []string{"S0", "S1", "S2"}, Handler: []string{"w", "ret:ctx"}},
+		}}
+		sc.Name = "stale-reader|" + rpcName(sc.RPCs[0]) + " >> " + rpcName(sc.RPCs[1])
+		out = append(out, sc)
+	}
 	return out
 }
 
@@ -211,6 +221,19 @@ func c20Oracle(sc *Scenario, rec *Rec, s *mc.Sched) []mc.Violation {
 		}
 		if countOp(rpc.Client, "R") > 0 && len(rr.CliRecv) > 0 && rr.CliRecv[0] != tag(0, "s", 0) {
 			out = append(out, mc.Violation{Clause: "first-message-lost", Obs: fmt.Sprintf("the first receive after the Header() calls returned %s", rr.CliRecv[0])})
+		}
+	case "stale-reader":
+		r1 := rec.RPCs[1]
+		for _, m := range r1.Monitor {
+			if strings.HasPrefix(m, "backpressure:") {
+				out = append(out, mc.Violation{Clause: "run-ahead", Obs: "later call: " + m[len("backpressure:"):], Detail: r1})
+			}
+		}
+		if r1.CliSendDone > 1 {
+			out = append(out, mc.Violation{Clause: "sender-progress", Obs: fmt.Sprintf("the later call's client completed %d sends although its handler never receives, want 1", r1.CliSendDone)})
+		}
+		if len(r1.SrvRecv) == 0 && len(rr.SrvRecv) > 1 {
+			out = append(out, mc.Violation{Clause: "cross-talk", Obs: fmt.Sprintf("the earlier call's handler received %v", rr.SrvRecv)})
 		}
 	case "c2s-cancel", "s2c-cancel", "c2s-finish":
 		// released: nothing may still be parked in an API call
